@@ -139,8 +139,12 @@ class Impl:
     def aval(self, a, in_from_data=False):
         k = a["k"]
         if k == "new":
-            arr = np.array([[float(fr(x)) for x in row] for row in a["rows"]], dtype=float).reshape(
-                len(a["rows"]), a["ncols"])
+            if a.get("dt") == "int":      # an integer-dtype cell (np.array([[1, 2]]) / a list of whole numbers)
+                arr = np.array([[int(fr(x)) for x in row] for row in a["rows"]], dtype=np.int64).reshape(
+                    len(a["rows"]), a["ncols"])
+            else:
+                arr = np.array([[float(fr(x)) for x in row] for row in a["rows"]], dtype=float).reshape(
+                    len(a["rows"]), a["ncols"])
             if in_from_data and a.get("aslist") and len(a["rows"]) > 0:
                 return arr.tolist()
             return arr
@@ -784,6 +788,9 @@ class Gen:
         if not fresh_only and x < 0.27:
             ncols = max(0, ncols + r.choice([-1, 1]))
         nrows = r.choice([0, 1, 1, 2, 2, 3])
+        if r.random() < 0.22:         # mixed dtypes: an integer cell next to float cells (either order)
+            return {"k": "new", "ncols": ncols, "dt": "int", "aslist": r.random() < 0.3,
+                    "rows": [[frs(r.randint(-8, 16)) for _ in range(ncols)] for _ in range(nrows)]}
         return {"k": "new", "ncols": ncols, "rows": [[frs(self.val()) for _ in range(ncols)] for _ in range(nrows)],
                 "aslist": r.random() < 0.3}
 
@@ -938,20 +945,21 @@ class Gen:
             return {"op": "getitem", "vi": vi, "idx": idx, "bare": r.random() < 0.5}
         if x < 0.52:
             return {"op": "get_data", "vi": vi, "idx": self.index(shape, "any", arity())}
+        has_int = any(isinstance(lf, np.ndarray) and lf.dtype.kind in "iu" for lf in leaves_of(v._data))
         if x < 0.66:      # field arithmetic
             num, den = self.magnitude(v)
             small = num < (1 << 30) and den <= (1 << 12)
-            kinds = ["add", "sub", "floordiv", "mod"] + (["mul", "div"] if small else []) + (
+            kinds = ["add", "sub", "floordiv", "mod"] + (["mul"] + ([] if has_int else ["div"]) if small else []) + (
                 ["pow"] if num < 64 and den <= 4 else [])
             a = r.choice(kinds)
             if a in ("add", "sub"):
-                c = frs(self.val())
+                c = frs(r.randint(-8, 16) if has_int else self.val())
             elif a == "mul":
-                c = frs(r.choice([-2, -1, Fraction(1, 2), 2, 3, 0, Fraction(3, 2)]))
+                c = frs(r.choice([-2, -1, 2, 3, 0] if has_int else [-2, -1, Fraction(1, 2), 2, 3, 0, Fraction(3, 2)]))
             elif a == "div":
                 c = frs(r.choice([2, 4, Fraction(1, 2), -2]))
             elif a in ("floordiv", "mod"):
-                c = frs(r.choice([1, 2, 3, Fraction(1, 2), -2, Fraction(3, 2), -3]))
+                c = frs(r.choice([1, 2, 3, -2, -3] if has_int else [1, 2, 3, Fraction(1, 2), -2, Fraction(3, 2), -3]))
             else:
                 c = r.choice([0, 1, 2, 2, 3])
             return {"op": "field_op", "vi": vi, "name": some_field(), "a": [a, c]}
@@ -961,7 +969,7 @@ class Gen:
             total = sum(lf.shape[0] for lf in leaves_of(v._data) if isinstance(lf, np.ndarray) and lf.ndim == 2)
             y = r.random()
             n = total if y < 0.85 else max(0, total + r.choice([-1, 1]))
-            vals = None if y > 0.97 else [frs(self.val()) for _ in range(n)]
+            vals = None if y > 0.97 else [frs(r.randint(-8, 16) if has_int else self.val()) for _ in range(n)]
             return {"op": "set_flattened", "vi": vi, "name": some_field(), "vals": vals,
                     "via": r.choice(["method", "setitem", "list"])}
         if x < 0.82:
@@ -1349,6 +1357,23 @@ def directed_histories():
               {"op": "meta_put", "vi": 0, "key": "k", "val": 1}, {"op": "set_name", "vi": 1, "name": "n"},
               {"op": "reload", "vi": 0, "store": "zip"}, {"op": "reload", "vi": 1, "store": "dir"},
               {"op": "field_op", "vi": 3, "name": 0, "a": ["add", "1/1"]}, {"op": "copy", "vi": 0}])
+    # mixed dtypes: an integer cell before a float cell and the other way round; the flattened views are the
+    # PROMOTED concatenation and writing them back is the identity (judged by oracle_flatten after every step)
+    inew = lambda nc, *rows, **kw: dict(new(nc, *rows), dt="int", **kw)  # noqa
+    fd = lambda cells: {"op": "from_data", "data": cells, "nf": None, "fields": None, "units": None}  # noqa
+    H.append([fd([inew(2, [1, 2], [3, 4], aslist=True), new(2, ["1/2", "3/2"], ["9/4", "15/4"]), inew(2, [6, 7])]),
+              {"op": "field_flatten", "vi": 0, "name": 0, "via": "method"},
+              {"op": "field_flatten", "vi": 0, "name": 1, "via": "asarray"}, {"op": "flatten", "vi": 0},
+              {"op": "field_op", "vi": 0, "name": 0, "a": ["add", "1/1"]}, {"op": "copy", "vi": 0},
+              {"op": "set_flattened", "vi": 1, "name": 1, "vals": ["1/1", "2/1", "3/1", "4/1", "5/1"], "via": "method"}])
+    H.append([fd([new(1, ["1/2"], ["1/4"]), inew(1, [3], [4]), inew(1)]),
+              {"op": "field_flatten", "vi": 0, "name": 0, "via": "method"}, {"op": "flatten", "vi": 0}])
+    H.append([fs([2, 2], 3), {"op": "setitem", "vi": 0, "idx": [{"i": 0}, {"i": 0}], "value": {"k": "arr", "a": inew(3, [1, 2, 3])}},
+              {"op": "setitem", "vi": 0, "idx": [{"i": 1}, {"i": 1}], "value": arr(3, ["1/2", "3/2", "5/2"], ["7/2", "9/2", "11/2"])},
+              {"op": "setitem", "vi": 0, "idx": [{"i": 1}, {"i": 0}], "value": {"k": "arr", "a": inew(3)}},
+              {"op": "field_flatten", "vi": 0, "name": 2, "via": "method"},
+              {"op": "getitem", "vi": 0, "idx": [{"s": [None, None, -1]}, {"s": [None, None, None]}]},
+              {"op": "field_flatten", "vi": 1, "name": 0, "via": "asarray"}, {"op": "flatten", "vi": 1}])
     return H
 
 
@@ -1435,6 +1460,19 @@ def run(ctx: Ctx):
         "name / metadata moves) are judged by the oracle only",
     ]
     ctx.proofs_or_violation()
+    # the translator tie (coqc subprocesses) runs while the histories are generated and executed below; it
+    # has its own PRNG stream, so the interleaving does not influence the generated cases
+    import threading
+    from ..c11_tie import run_tie
+    tie_exc = []
+
+    def _tie():
+        try:
+            run_tie(ctx)
+        except BaseException as e:  # noqa: re-raised in the main thread
+            tie_exc.append(e)
+    tie_thread = threading.Thread(target=_tie, name="c11-tie")
+    tie_thread.start()
 
     hists = []
     for ops in directed_histories():
@@ -1446,6 +1484,9 @@ def run(ctx: Ctx):
         steps = depth if k % 7 else max(4, depth // 3)
         hists.append(("random", run_history(lambda impl, dims=dims: Gen(ctx.rng, impl, dims), steps)))
 
+    tie_thread.join()
+    if tie_exc:
+        raise tie_exc[0]
     # ---- oracle results
     n_fail = 0
     for tag, h in hists:
